@@ -22,6 +22,7 @@ RULE = (
     "directory as simfile directory and as pack x strict {True, False} x ignore_duplicate {False, True}. Non-trivial "
     "when the tree holds at least two simfile-named entries; distinct by canonical JSON of the tree."
     ' Round 5: packs mixing cp1252/cp932/UTF-8 files with non-ASCII titles; directories named like audio, image and simfile files.'
+    ' Round 6: names not in Unicode normal form C; filesystem passed positionally to opendir/openpack.'
 )
 ASSUMPTIONS = ["MemoryFS and the native filesystem list what was created"]
 MONITORS = ["simfile_directory", "pack_listing", "opendir", "openpack", "loader_options_recorder"]
